@@ -86,7 +86,7 @@ fn main() {
         std::process::exit(2);
     }
     let mut c = Check::new("C10", args.tier, "exploration");
-    c.rule = "complete product of transport operations x version x queue index x queue size x address triples x feature words x status / interrupt-status values x device lag, all ordered pairs of a reduced operation list, and all probe headers (magic flips x versions x device ids x region sizes); every case run twice (plain and through SomeTransport); distinct = distinct register traces".into();
+    c.rule = "complete product of transport operations x version x queue index x queue size x address triples x feature words x status / interrupt-status values x device lag, all ordered pairs of a reduced operation list, all pairs of per-queue operations on the same queue with a device reset in between, and all probe headers (magic flips x versions x device ids x region sizes); every case run twice (plain and through SomeTransport); distinct = distinct register traces".into();
     c.assumptions = vec!["reading ConfigGeneration (0xfc) on a legacy device is tolerated (undefined for version 1, reads as 0)".into()];
     let thorough = args.tier == Tier::Thorough;
     let mut acc = Acc { c: &mut c, evals: 0, sigs: HashSet::new(), shown: 0 };
@@ -159,6 +159,26 @@ fn main() {
             small.push(Op::QueueSet { q, size: 8, desc: d, driver: dr, device: de });
             small.push(Op::QueueUnset(q));
             small.push(Op::QueueUsed(q));
+        }
+        // A device reset between two operations on the same queue: the reset puts the device's
+        // queue selector back to 0, so the second operation has to select its queue (again).
+        for q in [1u16, 2] {
+            let per_queue = [Op::MaxQueueSize(q), Op::QueueUsed(q), Op::QueueSet { q, size: 8, desc: d, driver: dr, device: de }, Op::QueueUnset(q)];
+            for a in &per_queue {
+                for b in &per_queue {
+                    let mut ops = vec![];
+                    if version == 1 {
+                        ops.push(Op::SetGuestPageSize(4096));
+                    }
+                    ops.push(a.clone());
+                    ops.push(Op::SetStatus(0));
+                    if version == 1 {
+                        ops.push(Op::SetGuestPageSize(4096));
+                    }
+                    ops.push(b.clone());
+                    acc.run(&part_p, &env, &ops);
+                }
+            }
         }
         env.isr = 3;
         for a in &small {
